@@ -48,6 +48,9 @@ type Ctx struct {
 	violKeys  map[string]int
 	notes     map[string]string
 
+	caseStart   time.Time
+	caseStream  string
+	caseIdx     int
 	guardMu     sync.Mutex
 	guardKey    string
 	guardStream string
@@ -114,6 +117,7 @@ func Parse(prop string, args []string) *Ctx {
 	} else {
 		c.out = bufio.NewWriter(os.Stdout)
 	}
+	c.caseWatchdog(8 * time.Minute)
 	return c
 }
 
@@ -140,8 +144,35 @@ func (c *Ctx) emit(m map[string]interface{}) {
 	c.out.WriteByte('\n')
 }
 
+// caseWatchdog ends the worker (exit 4, goroutine dump on stderr) when one case has been running
+// for longer than limit: the case is inconclusive and the driver resumes after it.
+func (c *Ctx) caseWatchdog(limit time.Duration) {
+	go func() {
+		for {
+			time.Sleep(5 * time.Second)
+			c.mu.Lock()
+			started, stream, idx := c.caseStart, c.caseStream, c.caseIdx
+			c.mu.Unlock()
+			if started.IsZero() || time.Since(started) < limit {
+				continue
+			}
+			c.Inconclusive(stream, idx, fmt.Sprintf("case watchdog: still running after %s", limit))
+			c.mu.Lock()
+			c.snapLocked(false)
+			c.mu.Unlock()
+			buf := make([]byte, 1<<20)
+			n := runtime.Stack(buf, true)
+			fmt.Fprintf(os.Stderr, "CASE-WATCHDOG %s#%d\n%s\n", stream, idx, buf[:n])
+			os.Exit(4)
+		}
+	}()
+}
+
 // Mark records that case i is about to run (crash attribution).
 func (c *Ctx) Mark(i int, stream string) {
+	c.mu.Lock()
+	c.caseStart, c.caseStream, c.caseIdx = time.Now(), stream, i
+	c.mu.Unlock()
 	if c.progress != nil {
 		var b [64]byte
 		binary.LittleEndian.PutUint64(b[:8], uint64(i))
